@@ -317,6 +317,8 @@ func (m *c36Model) genDAO(rt *rapid.T, c *harness.Case) *c36Op {
 	var to sdk.Address
 	if action == govTypes.DAOTransferString {
 		pool := append(append(append([]ident{}, m.w.randoms...), m.w.fresh...), m.w.dao, from)
+		// the DAO module account itself (and the fee collector) as recipient: a transfer onto itself moves nothing
+		pool = append(pool, ident{addr: m.daoAddr, name: "dao-module-account"}, ident{addr: m.feeAddr, name: "fee-collector"})
 		t := pool[rapid.IntRange(0, len(pool)-1).Draw(rt, "to")]
 		to, toName = t.addr, t.name
 		msg.ToAddress = to
